@@ -444,7 +444,7 @@ class Interp:
             return self.exec_block(st.body, env)
         if d is False:
             return self.exec_block(st.orelse, env) if st.orelse else env
-        e1, e2 = dict(env), dict(env)
+        e1, e2 = _clone_env(env), _clone_env(env)
         rc = env.get("$reach")
         rc = rc.e if isinstance(rc, Sc) else sym.TRUE
         e1["$reach"] = Sc(sym.And(rc, c))
@@ -898,10 +898,11 @@ class Interp:
                 env[name] = b
             return
         # column / masked / element stores on an array: rebuild the generic element
-        if isinstance(base, Arr) and name:
+        if isinstance(base, Arr):
             nv = self._store_into_arr(base, idx, v, st)
             if nv is not None:
-                env[name] = nv
+                # numpy stores are in place: every alias of this array object sees the new contents
+                base.axes, base.elem = nv.axes, nv.elem
                 return
         if name:
             env[name] = self.unknown("subscript-store", st, (generic_elem(base), generic_elem(v)))
@@ -1053,6 +1054,8 @@ class Interp:
                     out.append(("mask", v))
                 else:
                     out.append(("fancy", v))
+            elif isinstance(v, Bag) and _is_bool(v.elem):
+                out.append(("mask", v))
             else:
                 out.append(("fancy", v))
         return out
@@ -1316,6 +1319,10 @@ class Interp:
                 return Sc(sym.Bool(isinstance(op, ast.IsNot)))
             if same:
                 return Sc(sym.Bool(isinstance(op, ast.Is)))
+            if isinstance(a, Sc) and isinstance(b, Sc) and a.e[0] == "bool" and b.e[0] == "bool":
+                return Sc(sym.Bool((a.e == b.e) == isinstance(op, ast.Is)))
+            if isinstance(a, Sc) and isinstance(b, Sc) and b.e[0] == "bool" and a.e[0] in ("sym",):
+                return Sc(sym.Expr(("cmp", "==" if isinstance(op, ast.Is) else "!=", a.e, b.e)))
             return Sc(sym.Opq("config", (), fresh("is")))
         if isinstance(op, (ast.In, ast.NotIn)):
             if isinstance(a, StrV) and isinstance(b, Seq) and all(isinstance(x, StrV) for x in b.items):
@@ -1503,6 +1510,52 @@ class Interp:
 
 _DUNDER = {ast.Add: "__add__", ast.Sub: "__sub__", ast.Mult: "__mul__", ast.Div: "__truediv__"}
 _RDUNDER = {ast.Add: "__radd__", ast.Sub: "__rsub__", ast.Mult: "__rmul__", ast.Div: "__rtruediv__"}
+
+
+def _clone_env(env: dict) -> dict:
+    """copy of an environment in which mutable abstract objects are duplicated, preserving aliasing"""
+    memo = {}
+
+    def cl(v):
+        k = id(v)
+        if k in memo:
+            return memo[k]
+        if isinstance(v, _SeqAcc):
+            n = _SeqAcc([])
+            memo[k] = n
+            n.items = [cl(x) for x in v.items]
+            n.appended = list(v.appended)
+            n.conditional = v.conditional
+            return n
+        if isinstance(v, Seq):
+            n = Seq([], v.kind)
+            memo[k] = n
+            n.items = [cl(x) for x in v.items]
+            return n
+        if isinstance(v, Arr):
+            n = Arr(v.axes, v.elem, v.kind, v.uid)
+            for a in ("flat_of",):
+                if hasattr(v, a):
+                    setattr(n, a, getattr(v, a))
+            memo[k] = n
+            return n
+        if isinstance(v, Blocks):
+            n = Blocks(v.shape, v.base, list(v.stores), v.uid)
+            memo[k] = n
+            return n
+        if isinstance(v, DictV):
+            n = DictV({}, v.generic)
+            memo[k] = n
+            n.d = {kk: cl(x) for kk, x in v.d.items()}
+            return n
+        if isinstance(v, ObjV) and v.cls is not None:
+            n = ObjV(v.cls, {}, v.tag)
+            memo[k] = n
+            n.attrs = {kk: cl(x) for kk, x in v.attrs.items()}
+            return n
+        return v
+
+    return {k: cl(v) for k, v in env.items()}
 
 
 class _SeqAcc(Seq):
